@@ -83,6 +83,15 @@ def check_diagram(rep, d, others):
             got = common.outcome(lambda: d >> o)
             if got != ('exc', AxiomError):
                 rep.fail('C01:then.refuses', 'ill-typed composition gave %r' % (got,), '%s >> %r' % (r, o))
+    # composing with a formal sum (empty or not) of another type is refused as well
+    q = monoidal.Ty('q')
+    for what, thunk in (('d >> Sum([], d.cod @ q, q)', lambda: d >> monoidal.Sum([], d.cod @ q, q)),
+                        ('Sum([], q, d.dom @ q) >> d', lambda: monoidal.Sum([], q, d.dom @ q) >> d),
+                        ('(d + d) >> Sum([], d.cod @ q, q)', lambda: (d + d) >> monoidal.Sum([], d.cod @ q, q))):
+        got = common.outcome(thunk)
+        rep.count('then.refuses.sum')
+        if got != ('exc', AxiomError):
+            rep.fail('C01:then.refuses.sum', 'ill-typed composition with an empty sum gave %r' % (got,), '%s with d = %s' % (what, r))
     rep.case(r, nontrivial=n > 0)
 
 
